@@ -387,6 +387,10 @@ Definition mon_poll (p : params) (napps : nat) (m : mon) (s : pstep) : mon * lis
   let m3 :=
     if new_visit
     then mkMon post left lba' quiet cand pass gap_polls req out (m_turn m2) (m_tt m) now 0 start
+    else if state_kind_eqb k1 KOffline
+    then (* the station re-created itself in this poll (second address collision while listening): as after
+            `A off` its last_token_time is 0 again, the hold-time bookkeeping of C13 starts again *)
+         mkMon post left lba' quiet cand pass gap_polls req out (m_turn m2) 0 0 0%nat start
     else mkMon post left lba' quiet cand pass gap_polls req out (m_turn m2) (m_prev_tt m) (m_tt m) rounds start in
   (m3, e01 ++ e06 ++ e11a ++ e11c ++ e11b ++ e12a ++ e12b ++ ecalls ++ e15).
 
